@@ -90,6 +90,13 @@ func genTreeEnv(r *core.Rng, dir string) (*TreeEnv, []string) {
 		remote = append(remote, "/remote/goroot/src/zz/w.go")
 	}
 	if r.Chance(0.5) {
+		// the same package checked out in both local GOPATHs: the first entry of
+		// LocalGOPATHs that has the file wins
+		add(g1+"/src/dup/d.go", goSrc)
+		add(g2+"/src/dup/d.go", goSrc)
+		remote = append(remote, "/r3/src/dup/d.go")
+	}
+	if r.Chance(0.5) {
 		add(g2+"/pkg/mod/github.com/x/y@v1.0.0/z.go", goSrc)
 		remote = append(remote, "/r2/pkg/mod/github.com/x/y@v1.0.0/z.go")
 	}
